@@ -373,6 +373,35 @@ def run(m: Model, r: Report, tier: str) -> None:
             f"{ep_.qualname}#drain-in-finally",
             "the database is drained and closed (_db_finish_run_meta) outside the finally of the try around run(): when the run is cancelled, rows still queued are never written", loc=ep_.loc)
 
+    # ... and nothing that can fail stands before it in that finally block: only plain bookkeeping assignments may precede the drain (file system or hook
+    # work in front of it - META.json, log handlers - turns its failure into lost rows and a connection that is never closed)
+    if len(tr_run) == 1 and len(fin_calls) == 1:
+        before = []
+        for st in tr_run[0].finalbody:
+            if any(fin_calls[0] is x for x in ast.walk(st)):
+                break
+            before.append(st)
+        risky = [ast.unparse(st).splitlines()[0][:60] for st in before
+                 if not (isinstance(st, (ast.Assign, ast.AnnAssign)) and not any(isinstance(x, ast.Await) for x in ast.walk(st)) and
+                         all(ast.unparse(c.func) in ("datetime.now", "time.time", "str", "int") or ast.unparse(c.func).endswith(".isoformat") for c in ast.walk(st) if isinstance(c, ast.Call)))]
+        r.check(not risky, "R7", f"{ep_.qualname}#drain-first", f"{risky} run(s) in the finally block before the database is drained: if it raises (artifacts directory gone, "
+                "disk full), the queued rows of the run are never written and the handler is never closed", loc=ep_.loc)
+
+    # the state that is recorded with the following requests: reading the active session is an observation, it changes the tracked state only when it
+    # reports another session (a reset on every session read forgets the security level, and every later row is logged with security_access_level null)
+    eus = m.require_function(f"{ECU}.ECU.update_state")
+    rdbi_ifs = [n for n in eus.node.body if isinstance(n, ast.If) and "ReadDataByIdentifierResponse" in ast.unparse(n.test)]
+    if len(rdbi_ifs) != 1:
+        raise AnalysisError(f"{eus.qualname}: the ReadDataByIdentifier (active session) branch was not found")
+    resets_ = [n for n in ast.walk(rdbi_ifs[0]) if isinstance(n, ast.Call) and ast.unparse(n.func) == "self.state.reset"]
+    from sa.util import path_condition as _pc11b
+    ok_obs = bool(resets_)
+    for rc_ in resets_:
+        inner = [(t, p_) for t, p_ in _pc11b(rdbi_ifs[0], rc_) if "self.state.session" in ast.unparse(t)]
+        ok_obs = ok_obs and any((isinstance(t, ast.Compare) and len(t.ops) == 1 and ((isinstance(t.ops[0], ast.NotEq) and p_) or (isinstance(t.ops[0], ast.Eq) and not p_))) for t, p_ in inner)
+    r.check(ok_obs, "R3", f"{eus.qualname}#session-read-is-an-observation", "a reply to the active-session read resets the tracked state although the reported session equals the "
+            "tracked one: the security level is forgotten and the rows that follow are recorded with a state the ECU is not in", loc=eus.loc)
+
     # ---------------------------------------------------------------- R8
     ifs = [n for n in ast.walk(req.node) if isinstance(n, ast.If) and "ANALYZE" in ast.unparse(n.test)]
     okm = len(ifs) == 1 and "'ANALYZE' in config.tags" in ast.unparse(ifs[0].test) and \
